@@ -43,6 +43,12 @@ func checkC14(c *core.Ctx) {
 	structRebuildCompleteness(c, rC14Fld, "ast.TemporalLiteral", []string{"engine.makeSingleDeltaRule", "engine.normalizeRule"})
 	c14IntervalContains(c, k)
 	c14Annotation(c, k)
+	c.Rule("ORDABS.store-answers-by-interval-meaning", "the operators query the temporal store by range and by point: the interval tree's pruned searches and its rotations, evaluated at one node with symbolic children over all orderings, never skip a subtree that can hold a matching interval and keep the max-end augmentation (obligations shared with C13)", 10)
+	c.Under("ORDABS.store-answers-by-interval-meaning", []string{rC13Query, rC13Rot}, func() {
+		c13QueryPoint(c, k)
+		c13QueryRange(c, k)
+		c13Rotations(c, k)
+	})
 }
 
 // c14IntervalContains: engine.intervalContains(a, b) == (a.start <= b.start && b.end <= a.end) over -inf/timestamp starts and timestamp/+inf ends.
@@ -544,7 +550,32 @@ func c14Bind(c *core.Ctx, k *tkit) {
 		return
 	}
 	got := strings.Join(pairs, " ")
-	c.Check(got == "S=3 E=8", rC14Bind, f.Name, f.Decl.Pos(), "start variable <- 3, end variable <- 8 for the fact interval [3,8]", "for the annotation @[S,E] and a fact valid [3,8] the bindings are \""+got+"\", want \"S=3 E=8\"")
+	bad := ""
+	if got != "S=3 E=8" {
+		bad = "for the annotation @[S,E] and a fact valid [3,8] the bindings are \"" + got + "\", want \"S=3 E=8\""
+	}
+	// unbounded facts: the variables receive the instants the store itself uses for -inf / +inf
+	// (factstore.GetStartTime / GetEndTime, interpreted), not a raw zero timestamp
+	const lo, hi = int64(-1 << 63), int64(1<<63 - 1)
+	for _, tc := range []struct {
+		fact *ordabs.Rec
+		want string
+		what string
+	}{
+		{k.iv(k.NEG, 0, k.TS, 8), fmt.Sprintf("S=%d E=8", lo), "a fact valid from -inf to 8"},
+		{k.iv(k.TS, 3, k.POS, 0), fmt.Sprintf("S=3 E=%d", hi), "a fact valid from 3 to +inf"},
+		{k.iv(k.NEG, 0, k.POS, 0), fmt.Sprintf("S=%d E=%d", lo, hi), "an eternal fact"},
+	} {
+		pairs = nil
+		in.Reset()
+		if _, err := in.Call(f, te, []ordabs.Value{q, tc.fact, subst}); !runORD(c, rC14Bind, f.Name, f, err) {
+			return
+		}
+		if g := strings.Join(pairs, " "); g != tc.want && bad == "" {
+			bad = fmt.Sprintf("for the annotation @[S,E] and %s the bindings are \"%s\", want \"%s\" (an unbounded end is the earliest / latest instant, not 1970-01-01)", tc.what, g, tc.want)
+		}
+	}
+	c.Check(bad == "", rC14Bind, f.Name, f.Decl.Pos(), "start and end variables receive the fact's own bounds, unbounded ones included", bad)
 }
 
 func c14HeadTime(c *core.Ctx, k *tkit) {
